@@ -120,7 +120,7 @@ theorem smithyOk_all : Ty.all.all smithyOk = true := by decide +kernel
 a structure/union of the joined Smithy model (today: all of them, `noSmithy = []`), the deserialiser entry and
 the serialiser entry have exactly the members the Smithy traits prescribe — element or attribute name (`xmlName`),
 bound to a child element or to an attribute of the start tag (`xmlAttribute`: `Grantee.xsi:type`; FULL since the
-repair 1dc4ea8 — until then s3s read and wrote a child element `<xsi:type>`, finding `xml-xsi-type`), list layout
+repair 680006e — until then s3s read and wrote a child element `<xsi:type>`, finding `xml-xsi-type`), list layout
 (`xmlFlattened`, member `xmlName`), target kind, timestamp format, required / optional — as an unordered collection,
 *except* the differences listed by name in `XmlSpec.smithyExceptions` (`Tag.Key` / `Tag.Value` are required in
 Smithy and optional in s3s on purpose; nothing else). The serialiser entry moreover declares a namespace prefix in
@@ -226,7 +226,7 @@ deserialiser applies it) undoes both quick-xml's `escape` (attribute values) and
 theorem C13_unescape_escape (t : Bytes) : unescape (escape t) = some t ∧ unescape (escapeText t) = some t :=
   ⟨unescape_escape t, unescape_escapeText t⟩
 
-/-- **Attribute values are lossless** (code since 1dc4ea8: `xml/ser.rs::attr_value`, `Deserializer::attribute`).
+/-- **Attribute values are lossless** (code since 680006e: `xml/ser.rs::attr_value`, `Deserializer::attribute`).
 For every byte string `t`, what `attr_value` writes (`escapeAttr`: quick-xml's `escape`, then tab, LF and CR as
 character references) (1) holds no literal tab, LF or CR — which every XML reader would turn into a space (XML 1.0
 §3.3.3) —, no `"` and no `<`; (2) is left as it is by the attribute-value normalisation `Deserializer::attribute`
@@ -259,7 +259,7 @@ lengths). For every well-formed schema `s` and every value `v` of it in normal f
 encoded content yields `v` and leaves exactly what followed. The content of an element is always followed by the
 element's end tag `stop n`; that is the form stated (an empty string encodes as *no* event, and `Deserializer::text`
 recognises it by the end tag that follows). The content is decoded on the start tag the serialiser wrote for it:
-`encAttrs s v` are the attribute bytes `start_of` puts there for `v.attributes()` (since 1dc4ea8; empty unless `s` is
+`encAttrs s v` are the attribute bytes `start_of` puts there for `v.attributes()` (since 680006e; empty unless `s` is
 a struct with a member bound to an attribute), and `decode` reads such members back from them. Normal form: a flattened list member is not the empty list
 (`Some([])` / `[]` write nothing at all and read back as `None` / `MissingField`) — these values have no restXml
 representation of their own; every other value is covered. -/
@@ -334,7 +334,7 @@ theorem C13_bucket_location_roundtrip (X : Ext) (tag : Bytes) (ns : Option Bytes
 
 /-- **The tokeniser reads back what the writer wrote.** For every well-nested event sequence (`WN`: element names of
 name bytes, attributes ` key="value"` with such names as keys and `"`-free values — the `xmlns` attribute and, since
-1dc4ea8, the attributes of a value —, texts non-empty, `<`-free and never adjacent; a text outside every
+680006e, the attributes of a value —, texts non-empty, `<`-free and never adjacent; a text outside every
 element is white space — since d51737b the deserialiser refuses any other character data there) that begins with a
 tag, `Deserializer` over the written bytes sees exactly the written events — and everything the encoder produces for
 a schema with good element names is such a sequence (next theorem). -/
@@ -405,7 +405,7 @@ the Rust code statement by statement:
    elements is a white-space text (`TopClean`) — anything else ends the run with `InvalidContent`;
 2. *known elements*: the element-name dispatch of a struct (`decodeField`) and of a union (`decodeVariant`) succeeds
    only for the element name of a member / variant — of a member that is read from child elements (`Flds.elemTags`):
-   a member bound to an attribute (`Grantee.xsi:type`, since 1dc4ea8) is not one, a child element of its name is
+   a member bound to an attribute (`Grantee.xsi:type`, since 680006e) is not one, a child element of its name is
    refused like any unknown element;
 3. *no repeated single-valued member*: when the member an element name belongs to is not a flattened list and already
    has a value, the dispatch fails with `DuplicateField`; a successful dispatch leaves the member with a value, and no
